@@ -107,6 +107,9 @@ class UnknownGitCommand(Exception):
     pass
 
 
+_pos_cache = [None, None]
+
+
 class FakeRepo:
     """Just enough of bert_e.lib.git.Repository for BranchCascade."""
 
@@ -114,7 +117,11 @@ class FakeRepo:
         self.names = list(names)
         self.tags = list(tags)
         self.command_error = command_error
-        self.pos = {n: i for i, n in enumerate(oracle.dest_order(names))}
+        key = frozenset(names)
+        if _pos_cache[0] != key:       # same subset for many orders
+            _pos_cache[:] = [key, {n: i for i, n in
+                                   enumerate(oracle.dest_order(names))}]
+        self.pos = _pos_cache[1]
         self.queries = 0
 
     def _refs(self):
